@@ -578,6 +578,12 @@ class Gen(object):
                 return self.seed()
             lo = self.pick("tp", trunc=False)
             hi = self.pick("tp", trunc=False)
+            # (a recurrence between points millennia apart -- the 7-digit
+            # year seeds -- walks the years one by one: seconds per query)
+            for cand in (s, lo, hi):
+                if cand is not None and not 1000 <= self.meta[cand].get(
+                        "year", 2000) <= 3000:
+                    return self.seed()
             form = rng.choice(["start_dur", "dur_end", "start_end",
                                "start_dur_minmax"])
             ops = [s, d]
